@@ -536,8 +536,36 @@ func runC15(c *harness.Ctx) {
 		maxSteps = 10
 	}
 	nSteps := 1 + t.Draw("nsteps", maxSteps)
+	// one run in four follows the life of one ticket: issue it, let time pass in
+	// two stretches that are each shorter than the lifetime (and may together
+	// exceed it), restart in between or not, connect again
+	var script []int
+	if t.Draw("ticket-life", 4) == 3 {
+		script = []int{100, 7}
+		if t.Draw("life.restart1", 2) == 1 {
+			script = append(script, 6)
+		}
+		script = append(script, 7)
+		if t.Draw("life.restart2", 2) == 1 {
+			script = append(script, 6)
+		}
+		script = append(script, 101)
+		nSteps = len(script)
+		c.Feature("ticket-life-history")
+	}
 	for i := 0; i < nSteps && !c.S.Violated(); i++ {
-		switch t.Draw("step", 8) {
+		step := 0
+		if script != nil {
+			step = script[i]
+		} else {
+			step = t.Draw("step", 8)
+		}
+		switch step {
+		case 100, 101:
+			// (scripted) a clean connection; the first one is issued a ticket
+			if !w.connect(ssConnectOpts{issueTicket: step == 100 || t.Draw("issue", 2) == 1}) {
+				return
+			}
 		case 0, 1, 2, 3:
 			o := ssConnectOpts{issueTicket: t.Draw("issue", 2) == 1, sendSeed: t.Draw("seed", 2) == 1}
 			switch t.Draw("bad", 8) {
@@ -564,8 +592,15 @@ func runC15(c *harness.Ctx) {
 				return
 			}
 		case 7:
-			c.S.Sleep(time.Duration(1+t.Draw("hrs", 100)) * time.Hour)
-			w.hist = append(w.hist, "advance hours")
+			hrs := 1 + t.Draw("hrs", 100)
+			switch t.Draw("hrsk", 4) {
+			case 2:
+				hrs = 85 // a little more than half the lifetime
+			case 3:
+				hrs = 167 // one hour short of it
+			}
+			c.S.Sleep(time.Duration(hrs) * time.Hour)
+			w.hist = append(w.hist, fmt.Sprintf("advance %dh", hrs))
 		}
 		// tickets: at most one use each, never after expiry
 		for _, tk := range server.Tickets {
